@@ -50,7 +50,7 @@ impl PagedReader {
             && self.log_file_size == o.log_file_size
     }
 
-//@fn src/paged_reader.rs PagedReader new serves=C11,C08,C09,C16,C17 ret=r
+//@fn src/paged_reader.rs PagedReader new serves=C11,C08,C09,C16,C17,C06 ret=r
 //@rw -> Result< ==> -> IoResult<
 //@rw mut reader: T ==> mut reader: Dev
 //@rw #\[cfg\(not\(feature = "crc32c"\)\)\] ==> <empty>
@@ -70,7 +70,7 @@ impl PagedReader {
         }
 //@endfn
 
-//@fn src/paged_reader.rs PagedReader seek_physical serves=C11,C08,C17 ret=r
+//@fn src/paged_reader.rs PagedReader seek_physical serves=C11,C08,C17,C06 ret=r
 //@rw -> Result< ==> -> IoResult<
 //@rw Error::new\( ==> IoError::new(
 //@sig
@@ -102,7 +102,7 @@ impl PagedReader {
         }
 //@endfn
 
-//@fn src/paged_reader.rs PagedReader read_page serves=C11,C07,C17,C16,C08 ret=r
+//@fn src/paged_reader.rs PagedReader read_page serves=C11,C07,C17,C16,C08,C06 ret=r
 //@rw -> Result< ==> -> IoResult<
 //@rw #\[cfg\(not\(feature = "crc32c"\)\)\] ==> <empty>
 //@rw #\[cfg\(feature = "crc32c"\)\]\s*let crc = [^;]*; ==> <empty>
@@ -136,7 +136,7 @@ impl PagedReader {
         }
 //@endfn
 
-//@fn src/paged_reader.rs PagedReader align serves=C11,C08,C17 ret=r
+//@fn src/paged_reader.rs PagedReader align serves=C11,C08,C17,C06 ret=r
 //@rw -> Result< ==> -> IoResult<
 //@rw Error::new\( ==> IoError::new(
 //@sig
@@ -150,7 +150,7 @@ impl PagedReader {
         proof { assert(self.pages * (self.page_size - 4) <= self.pages * self.page_size) by (nonlinear_arith) requires self.pages >= 0, self.page_size > 4; }
 //@endfn
 
-//@fn src/paged_reader.rs PagedReader read trait=Read serves=C11,C07,C17,C16,C08,C09 ret=r
+//@fn src/paged_reader.rs PagedReader read trait=Read serves=C11,C07,C17,C16,C08,C09,C06 ret=r
 //@rw -> Result< ==> -> IoResult<
 //@sig
         requires old(self).wf(),
